@@ -920,13 +920,21 @@ class GaussianConstr(object):
 
     def update(self, constraint={}):
         for i in constraint:
-            if not i in self.vm.trainable_vars:
+            if self._trainable_name(i) is None:
                 warnings.warn(
                     "Constraint {} is useless to fitting because it's not trainable".format(
                         i
                     )
                 )
         self.constraint.update(constraint)
+
+    def _trainable_name(self, name):
+        """trainable name that owns the variable of ``name`` (a tied name shares the variable of its group head)"""
+        var = self.vm.variables.get(name, None)
+        for i in self.vm.trainable_vars:
+            if i == name or self.vm.variables[i] is var:
+                return i
+        return None
 
     def get_constrain_term(self):
         r"""
@@ -950,14 +958,16 @@ class GaussianConstr(object):
         """
         g_dict = {}
         for i in self.constraint:
-            if not i in self.vm.trainable_vars:
+            k = self._trainable_name(i)
+            if k is None:
                 continue
             pi = self.constraint[i]
             assert isinstance(pi, tuple) or isinstance(pi, list)
             assert len(pi) == 2
             mean, sigma = pi
             var = self.vm.variables[i]
-            g_dict[i] = (var - mean) / (sigma**2)  # 1st differentiation
+            # 1st differentiation (terms on the same variable add up)
+            g_dict[k] = g_dict.get(k, 0.0) + (var - mean) / (sigma**2)
         grad = []
         for i in self.vm.trainable_vars:
             if i in g_dict:
@@ -970,14 +980,15 @@ class GaussianConstr(object):
         """the constrained parameter's 2nd differentiation"""
         h_dict = {}
         for i in self.constraint:
-            if not i in self.vm.trainable_vars:
+            k = self._trainable_name(i)
+            if k is None:
                 continue
             pi = self.constraint[i]
             assert isinstance(pi, tuple) or isinstance(pi, list)
             assert len(pi) == 2
             mean, sigma = pi
-            var = self.vm.variables[i]
-            h_dict[i] = 1 / (sigma**2)  # 2nd differentiation
+            # 2nd differentiation (terms on the same variable add up)
+            h_dict[k] = h_dict.get(k, 0.0) + 1 / (sigma**2)
         nv = len(self.vm.trainable_vars)
         hessian = np.zeros([nv, nv])
         for v, i in zip(self.vm.trainable_vars, range(nv)):
